@@ -104,14 +104,27 @@ func (r *responseWriter) Write(b []byte) (int, error) {
 	return r.writer.Write(b)
 }
 
+// Flush sends the buffered part of the response, the response stays open for further writes.
 func (r *responseWriter) Flush() {
+	if nil == r.writer {
+		// already closed
+		return
+	}
 	if !r.wroteHeader {
 		r.WriteHeader(http.StatusOK)
 	}
-	_ = r.Close()
+	_ = r.writer.Flush()
 }
 
+// Close finishes the response: terminate the chunked body, flush and release the buffer.
 func (r *responseWriter) Close() (err error) {
+	if nil == r.writer {
+		// already closed
+		return nil
+	}
+	if !r.wroteHeader {
+		r.WriteHeader(http.StatusOK)
+	}
 
 	if nil != r.chunkWriter {
 		err = r.chunkWriter.Close()
